@@ -20,6 +20,7 @@ LEVEL_TEXT = ('static sibling agreement over ~150 operator methods, 6 hook famil
               '3 decorator wrappers; decorator/arity agreement of ~110 builtins. Of the numeric laws only structural necessary conditions are decided (see the end of this text); kernel values are not.')
 LEVEL_NOTE = 'kernel values are not decided: a wrong constant or off-by-one inside a numeric kernel (seed C15-a) is not detected; the inverse pairs and the bounds-unmodified clauses are necessary conditions only'
 LEVEL_TEXT_ADD = ' Also: path-sensitive operand provenance and in-value forwarding in the nine composition classes (C15.order); the four conversion pairs as inverse chains, bounds/quantum reach the arithmetic unmodified, integer fast paths test every parameter they read (C15.laws).'
+LEVEL_TEXT_ADD += ' Rounds e-f: list_unop/list_sum, the wrappers hand themselves to the operand hook, modulo remainder fix-up conditioned on the remainder; n-ary reflected dispatch is a known finding.'
 LEVEL_TEXT = (globals().get('LEVEL_TEXT') or EXPLANATION) + LEVEL_TEXT_ADD
 TECHNIQUE = 'static analysis: sibling-implementation agreement and argument-order rules across hook families'
 
